@@ -28,9 +28,9 @@ package s2
 //@   ensures result < uint64(1)<<61 && uint64(ci) == uint64(ci.Face())<<61 + result
 
 //@ func (ci CellID) Level() int
-//@   requires vcValid(ci)
-//@   ensures [range] 0 <= result && result <= 30
-//@   ensures [lsb] vcLsb(ci) == vcLsbAt(result)
+//@   ensures [total] -1 <= result && result <= 30
+//@   ensures [range] vcValid(ci) ==> 0 <= result
+//@   ensures [lsb] vcValid(ci) ==> vcLsb(ci) == vcLsbAt(result)
 
 //@ func (ci CellID) IsLeaf() bool
 //@   ensures vcValid(ci) ==> (result <==> ci.Level() == 30)
@@ -202,3 +202,72 @@ package s2
 //@   loop 1: decreases int(vcLsb(ci) >> 1)
 //@   loop 2 (ci CellID): invariant vcValid(ci) && vcLo(ci) == vcLo(old_ci) && vcLo(ci) < vcLo(limit) && vcHi(ci) < uint64(limit)
 //@   loop 2: decreases ci.Level()
+
+// ---------------------------------------------------------------- Hilbert curve: (face, i, j) <-> id through the lookup tables
+
+// lookupPos / lookupIJ are filled by init(); their contents are read from the running program on every run and
+// encoded as if-then-else trees. Both 8-step loops have a constant trip count and are unrolled completely.
+//@ table lookupPos lookupIJ
+
+//@ func cellIDFromFaceIJ(f, i, j int) CellID
+//@   requires 0 <= f && f < 6 && 0 <= i && i < 1<<30 && 0 <= j && j < 1<<30
+//@   ensures [leaf] vcValid(result) && result.IsLeaf() && result.Face() == f
+//@   loop 1: unroll 8
+
+//@ func (ci CellID) faceIJOrientation() (f, i, j, orientation int)
+//@   pure
+//@   ensures [ranges] 0 <= i && i < 1<<30 && 0 <= j && j < 1<<30 && 0 <= orientation && orientation < 4 && f == ci.Face() && 0 <= f && f < 8
+//@   ensures [face] vcValid(ci) ==> f < 6
+//@   loop 1: unroll 8
+
+// one table is the inverse of the other, per orientation (cheap canary for the dump and the encoding)
+//@ lemma lookupTablesInverse(k int)
+//@   requires 0 <= k && k < 1024
+//@   ensures [ij-pos] lookupIJ[(lookupPos[k]&^3)|(k&3)]&^3 == k&^3
+//@   ensures [pos-ij] lookupPos[(lookupIJ[k]&^3)|(k&3)]&^3 == k&^3
+
+// the two directions of the Hilbert mapping are inverse (both loops unrolled, 16 table lookups)
+//@ lemma hilbertRoundTripIJ(f int, i int, j int)
+//@   inlinecalls
+//@   unrollcalls 8
+//@   requires 0 <= f && f < 6 && 0 <= i && i < 1<<30 && 0 <= j && j < 1<<30
+//@   ensures [face] vcFaceOf(cellIDFromFaceIJ(f, i, j).faceIJOrientation()) == f
+//@   ensures [i] vcIOf(cellIDFromFaceIJ(f, i, j).faceIJOrientation()) == i
+//@   ensures [j] vcJOf(cellIDFromFaceIJ(f, i, j).faceIJOrientation()) == j
+
+//@ lemma hilbertRoundTripID(ci CellID)
+//@   inlinecalls
+//@   unrollcalls 8
+//@   requires vcValid(ci) && ci.IsLeaf()
+//@   ensures [id] vcFromFIJ(ci.faceIJOrientation()) == ci
+
+//@ spec func vcFaceOf(f, i, j, o int) int = f
+//@ spec func vcIOf(f, i, j, o int) int = i
+//@ spec func vcJOf(f, i, j, o int) int = j
+//@ spec func vcFromFIJ(f, i, j, o int) CellID = cellIDFromFaceIJ(f, i, j)
+
+// every point (any float64 triple, NaN and infinities included) maps to a valid leaf cell
+//@ func cellIDFromPoint(p Point) CellID
+//@   pure
+//@   ensures [valid-leaf] vcValid(result) && result.IsLeaf()
+
+//@ func stToIJ(s float64) int
+//@   ensures 0 <= result && result < 1<<30
+
+//@ func cellIDFromFaceIJWrap(f, i, j int) CellID
+//@   requires 0 <= f && f < 6
+//@   ensures [valid-leaf] vcValid(result) && result.IsLeaf()
+
+//@ func cellIDFromFaceIJSame(f, i, j int, sameFace bool) CellID
+//@   requires 0 <= f && f < 6 && (sameFace ==> 0 <= i && i < 1<<30 && 0 <= j && j < 1<<30)
+//@   ensures [valid-leaf] vcValid(result) && result.IsLeaf()
+
+// every reported neighbour is a valid cell of the requested level
+//@ func (ci CellID) EdgeNeighbors() [4]CellID
+//@   requires vcValid(ci)
+//@   ensures [level] forall k int :: 0 <= k && k < 4 ==> vcValid(result[k]) && result[k].Level() == ci.Level()
+
+//@ func (ci CellID) VertexNeighbors(level int) []CellID
+//@   requires vcValid(ci) && 0 <= level && level < ci.Level()
+//@   ensures [count] 3 <= len(result) && len(result) <= 4
+//@   ensures [level] forall k int :: 0 <= k && k < len(result) ==> vcValid(result[k]) && result[k].Level() == level
